@@ -98,8 +98,13 @@ Qed.
 
 (* ---------- one sync ---------- *)
 
+(* is the node a checkAllocations / releaseUnusedBlocks lookup resolves [cn] to alive?  A Calico node that is not a
+   Kubernetes node (lookup error) is alive as long as it exists. *)
 Definition kexists (w : world) (c : ctrl) (cn : N) : bool :=
-  negb (N.eqb (knode_for w c cn) 0) && nmem (knode_for w c cn) (w_knodes w).
+  match knode_for w c cn with
+  | KErr => true
+  | KNode kn => negb (N.eqb kn 0) && nmem kn (w_knodes w)
+  end.
 
 (* the allocation is listed under a node that is not alive (Calico node unknown or Kubernetes node gone) *)
 Definition Dead (w : world) (c : ctrl) (i : id) : Prop :=
